@@ -49,6 +49,9 @@ Calls ==
     Include_(S("broken"), <<>>), Render_(S("broken"), <<>>),
     RenderFor(S("missing"), Range(3, 2), "a", <<>>),    \* nothing to iterate: never looked up
     Include_(S("p.liquid"), <<>>), Render_(S("p.liquid"), <<>>),   \* a second spelling with its own source
+    \* an argument named like the variable that names the partial: the name is resolved in the caller's scope
+    Include_(V("pv"), <<Arg("pv", S("p2"))>>), Render_(V("pv"), <<Arg("pv", S("p2"))>>),
+    RenderWith(V("pv"), S("p2"), "pv", <<>>), RenderFor(V("pv"), Range(1, 2), "pv", <<>>),
     Include_(S("broken.liquid"), <<>>) }
 
 \* two uses of related names within one parser lifetime (both spellings of a
